@@ -486,6 +486,38 @@ func c18Scenarios() []c18Scenario {
 			}
 		}})
 	}
+	// Two callers are parked on a key whose loader fails or panics: both are woken by the failure, exactly the
+	// entries that are reachable through the cache may stay accounted, and both get the loader's value.
+	for _, kind := range []string{"failing", "panicking"} {
+		kind := kind
+		res = append(res, c18Scenario{"two waiters of a " + kind + " loader", func() (*c18World, []func(), func() string) {
+			w := prefill(1)
+			var v2, v3, calls2, calls3 int
+			first := func() {
+				w.caches[0].GetWithError(1, func() (int, int, error) {
+					vsched.Yield("loader")
+					return 0, 0, errors.New("boom")
+				})
+			}
+			if kind == "panicking" {
+				first = func() {
+					vlib.Catch(func() {
+						w.caches[0].Get(1, func() (int, int) { vsched.Yield("loader"); panic("loader panic") })
+					})
+				}
+			}
+			return w, []func(){
+				first,
+				func() { v2 = w.caches[0].Get(1, loader(0, 1, &calls2)) },
+				func() { v3 = w.caches[0].Get(1, loader(0, 1, &calls3)) },
+			}, func() string {
+				if v2 != c18Val(0, 1) || v3 != c18Val(0, 1) {
+					return fmt.Sprintf("lookups next to a %s load returned %d and %d, loader value %d", kind, v2, v3, c18Val(0, 1))
+				}
+				return final(w)
+			}
+		}})
+	}
 	return res
 }
 
@@ -629,7 +661,7 @@ func TestVerifC18(t *testing.T) {
 	}
 	ev := r.Get("evaluations")
 	r.Finish(t, "model_checking",
-		fmt.Sprintf("(a0) 56 many-key cases: n1 in {20..400} entries in one generation, n2 in {1..60} in the next, one pass evicts the first: survivors live, valued, not reloaded, accounted = sum; (a) explicit-state BFS to depth %d from one cleaner (limit %d B) and one cache: operations get / failing get / panicking get (keys 1,2) / Rotate / Cleanup / CleanEmptyGenerations / ReleaseBuckets / Release(c) / NewCache (<=3 caches); successor = replay of the path on a fresh instance + 1 op; canonical state = generation sizes+stale flags, per cache (released, managed, current generation rank, key->size@generation rank); invariants in every state: returned value = loader value, failed/panicked load (panic inside Get for key 1, inside GetWithError for key 2) reported and next lookup reloads without blocking, accounted size = sum of live entries, every live cache managed, size <= limit right after Cleanup. (b) all interleavings with <=%d preemptions (-1 = unbounded) of 8 three-thread scenarios (same key twice, failing, panicking, release, release of the cache sharing the generation of an in-flight load, and an entry evicted while its ok / failing / panicking loader runs followed by a second lookup of the key) with a cleaner pass; loaders contain a scheduling point; invariants at quiescence. distinct_nontrivial = distinct canonical states + scenarios", depth, c18Limit, bound),
+		fmt.Sprintf("(a0) 56 many-key cases: n1 in {20..400} entries in one generation, n2 in {1..60} in the next, one pass evicts the first: survivors live, valued, not reloaded, accounted = sum; (a) explicit-state BFS to depth %d from one cleaner (limit %d B) and one cache: operations get / failing get / panicking get (keys 1,2) / Rotate / Cleanup / CleanEmptyGenerations / ReleaseBuckets / Release(c) / NewCache (<=3 caches); successor = replay of the path on a fresh instance + 1 op; canonical state = generation sizes+stale flags, per cache (released, managed, current generation rank, key->size@generation rank); invariants in every state: returned value = loader value, failed/panicked load (panic inside Get for key 1, inside GetWithError for key 2) reported and next lookup reloads without blocking, accounted size = sum of live entries, every live cache managed, size <= limit right after Cleanup. (b) all interleavings with <=%d preemptions (-1 = unbounded) of 11 three-thread scenarios (same key twice, failing, panicking, two callers parked on a failing / panicking load, release, release of the cache sharing the generation of an in-flight load, and an entry evicted while its ok / failing / panicking loader runs followed by a second lookup of the key) with a cleaner pass; loaders contain a scheduling point; invariants at quiescence. distinct_nontrivial = distinct canonical states + scenarios", depth, c18Limit, bound),
 		map[string]any{
 			"states":                        r.Get("bfs_states") + int64(r.DistinctCount("outcomes")),
 			"transitions":                   ev,
